@@ -6,6 +6,12 @@ CONSTANTS
   MaxFetches = 9
   MaxOpen = 2
   Overlap = TRUE
+  Kinds = {"direct"}
+  Ours = {"V1", "V2"}
+  LookErrs = {}
+  MaxRefresh = 0
+  AuctionMiss = "fail"
+  BidAccount = "lookup"
   Design = "resolve"
   Family = "heldfetch"
 INVARIANTS Emit
